@@ -667,8 +667,9 @@ func run(r *enumx.Run, replay *enumx.ReplayCase) {
 	}
 	r.Rule(fmt.Sprintf("every scenario (history of 1..%d Writes by one Dir over the file sets {}, {a}, {a,b}, {b,c} with per-call contents; "+
 		"a crash at every point of the last Write, whose filesystem steps are MkdirAll, WriteFile split into create/first half/rest, Symlink, Rename, RemoveAll split per entry "+
-		"(thorough: before and after every step, 2n points; quick: once per distinct gap between steps, n+1 points: before step 0 and after every step); "+
-		"then a fresh Dir writing every set, followed by nothing or every second set, or crashing at every point of that Write (same rule) followed by a third fresh Dir writing every set), "+
+		"(thorough: before and after every step, 2n points; quick: once per distinct gap between two steps, n+1 points: before step 0 and after every step — "+
+		"'before step k>0' is the same instant as 'after step k-1'); "+
+		"then a fresh Dir writing every set, followed by nothing or every second set, or crashing in every distinct gap of that Write (n+1 points, both tiers) followed by a third fresh Dir writing every set), "+
 		"executed on the real filesystem through the real dir.go with os/time substituted; the property is evaluated after every single step, after every crash and after every Write that returns. "+
 		"Step counts are measured from a completed run, so every placed crash fires. "+
 		"distinct_nontrivial is measured: a case is trivial if its first crash fires before any filesystem step was performed; two cases are the same if they have the same fingerprint "+
@@ -788,10 +789,7 @@ func run(r *enumx.Run, replay *enumx.ReplayCase) {
 		}
 	}
 	slots2 := make([]slot, len(items))
-	nested := "the n+1 distinct gaps (before step 0, after each of the n steps), as for the first crash"
-	if r.Thorough() {
-		nested = "the 2n points (before and after each of the n steps), as for the first crash"
-	}
+	nested := "the n+1 distinct gaps of its n steps (before step 0, after each step)"
 	done = r.Parallel(len(items), func(i int) {
 		w := get()
 		defer put(w)
@@ -811,7 +809,7 @@ func run(r *enumx.Run, replay *enumx.ReplayCase) {
 			if len(resA.steps[1]) > 0 {
 				n = resA.steps[1][0]
 			}
-			for _, c2 := range points(n, r.Thorough()) {
+			for _, c2 := range points(n, false) {
 				c2 := c2
 				for t := range fileSets {
 					sc := Scenario{Hist: hists[it.h], C1: &it.c1, Rec: []int{r1}, C2: &c2, Third: []int{t}}
